@@ -11,6 +11,7 @@ For every square-root routine `sr` meeting the contract (both builds):
 `obtainable_even` (closure of the even subgroup under the group operations, decode results even by C02, Elligator
 outputs even by C07, generator even by kernel evaluation).
 -/
+import Decaf.BuildsCmd
 import Decaf.Props.C02
 import Decaf.Props.C03
 import Decaf.Props.C04
@@ -93,3 +94,8 @@ theorem generator_even : Point.IsEven C04.genPoint := by
   linear_combination -this
 
 end C01
+
+/-! ### the statements for the two shipped routines (`C09.ark_contract`, `C09.min_contract` discharge the premise) -/
+instantiate_builds C01.encode_decode
+instantiate_builds C01.decode_encode
+instantiate_builds C01.decode_injective
